@@ -88,6 +88,7 @@ type link struct {
 	conn      *Conn
 	dir       string // req | resp
 	pending   []byte
+	sent      []byte // everything handed to the link (for completeness judgement)
 	total     int // bytes handed to the link so far
 	delivered int
 	headLen   int // length of the header block of the first message (for fault placement)
@@ -102,6 +103,7 @@ type link struct {
 	senderEOF bool // sender finished; deliver EOF after the last byte
 	eofSent   bool
 	dead      bool // fault closed the stream
+	closeErr  error // error delivered instead of EOF when the sender is done
 }
 
 func (l *link) deliverable() bool {
@@ -119,6 +121,7 @@ func (l *link) deliverable() bool {
 
 func (l *link) send(b []byte) {
 	l.pending = append(l.pending, b...)
+	l.sent = append(l.sent, b...)
 	l.total += len(b)
 }
 
@@ -154,7 +157,12 @@ func (l *link) deliver(k *Kernel) {
 	}
 	if len(l.pending) == 0 && l.senderEOF && !l.eofSent && (l.fault == nil || l.faultOff < 0 || l.delivered < l.faultOff) {
 		l.eofSent = true
-		l.pipe.closeWith(io.EOF)
+		if l.closeErr != nil {
+			l.dead = true
+			l.pipe.closeWith(l.closeErr)
+		} else {
+			l.pipe.closeWith(io.EOF)
+		}
 	}
 }
 
@@ -402,6 +410,12 @@ func (k *Kernel) serveConn(cn *Conn) {
 		cn.s2c.senderEOF = true
 		return
 	}
+	if w.broken {
+		cn.status = w.status
+		cn.s2c.closeErr = errReset
+		cn.s2c.senderEOF = true
+		return
+	}
 	out := w.frame()
 	cn.status = w.status
 	cn.s2c.send(out)
@@ -441,6 +455,7 @@ type respWriter struct {
 	wrote   bool
 	body    bytes.Buffer
 	aborted bool
+	broken  bool // a Write failed: the connection is gone, nothing reaches the client
 	// write-error fault
 	failAt int // -1 none
 }
@@ -502,6 +517,8 @@ func (w *respWriter) Write(b []byte) (int, error) {
 		w.body.Write(b[:n])
 		w.k.Stats.fault("write-error")
 		w.k.Event("fault", "write-error conn=%d at=%d", w.cn.id, w.body.Len())
+		w.broken = true
+		w.cn.faultFired = append(w.cn.faultFired, "write-error")
 		return n, errors.New("write tcp sim: broken pipe")
 	}
 	if w.body.Len() == 0 && len(b) > 0 {
@@ -603,4 +620,28 @@ func (k *Kernel) rogueRespond(cn *Conn) {
 			cn.s2c.placeFault(f, cn.s2c.headLen, cn.s2c.total)
 		}
 	}
+}
+
+// responseComplete reports whether the bytes actually delivered on a response link
+// contain one complete framed HTTP response (status line, headers and the body the
+// framing announces).
+func (l *link) responseComplete(method string) (complete bool, status int) {
+	d := l.sent
+	if l.delivered < len(d) {
+		d = d[:l.delivered]
+	}
+	req, _ := http.NewRequest(method, "http://"+baseHost+"/", nil)
+	resp, err := http.ReadResponse(bufio.NewReader(bytes.NewReader(d)), req)
+	if err != nil {
+		return false, 0
+	}
+	_, err = io.Copy(io.Discard, resp.Body)
+	if err != nil {
+		return false, resp.StatusCode
+	}
+	if resp.ContentLength < 0 && len(resp.TransferEncoding) == 0 && bodyAllowed(resp.StatusCode) && method != "HEAD" {
+		// close-delimited body: complete only if the sender's EOF (not a fault) ended it
+		return l.eofSent && !l.dead, resp.StatusCode
+	}
+	return true, resp.StatusCode
 }
